@@ -112,6 +112,35 @@ MUTANTS = [
             .cmp(&b_processed_at)
             .then_with(|| a_created_at.cmp(&b_created_at))""")]),
     ("c18-pointer-lt", ["C18"], [], [(TR + "groups/types.rs", "                .is_gt()", "                .is_lt()")]),
+    ("c17-no-hash-check", ["C17"], [], [(CORE + "encrypted_media/manager.rs", """        if calculated_hash != reference.original_hash {
+            return Err(EncryptedMediaError::HashVerificationFailed);
+        }
+""", """        let _ = calculated_hash;
+""")]),
+    ("c17-aad-drops-filename", ["C17"], [], [(CORE + "encrypted_media/crypto.rs", """    aad.extend_from_slice(mime_type.as_bytes());
+    aad.push(0x00);
+    aad.extend_from_slice(filename.as_bytes());
+    aad
+""", """    aad.extend_from_slice(mime_type.as_bytes());
+    aad.push(0x00);
+    let _ = filename;
+    aad
+""")]),
+    ("c17-context-drops-hash", ["C17"], [], [(CORE + "encrypted_media/crypto.rs", """    context.extend_from_slice(file_hash);
+    context.push(0x00);
+    context.extend_from_slice(mime_type.as_bytes());""", """    let _ = file_hash;
+    context.push(0x00);
+    context.extend_from_slice(mime_type.as_bytes());""")]),
+    ("c17-decrypt-swaps-fields", ["C17"], [], [(CORE + "encrypted_media/manager.rs", """                    &reference.original_hash,
+                    &reference.mime_type,
+                    &reference.filename,
+                )?;
+                Self::decrypt_and_verify(encrypted_data, &key, reference)""", """                    &reference.original_hash,
+                    &reference.filename,
+                    &reference.mime_type,
+                )?;
+                Self::decrypt_and_verify(encrypted_data, &key, reference)""")]),
+    ("c17-hash-check-inverted", ["C17"], [], [(CORE + "encrypted_media/manager.rs", "        if calculated_hash != reference.original_hash {", "        if calculated_hash == reference.original_hash {")]),
     ("c20-no-prune-after-hydration", ["C20"], [], [(CORE + "epoch_snapshots.rs", """        // Enforce retention limit after hydration
         while queue.len() > self.retention_count {
             if let Some(old_snap) = queue.pop_front() {
@@ -135,6 +164,7 @@ EQ = os.path.join(HERE, "equiv")
 
 # behaviour-preserving refactors: every listed check must stay SILENT (exit 0) on them — a check that fires here is a false alarm
 EQUIV = [
+    ("eq-media-refactor", ["C17", "C06", "C14"], [os.path.join(EQ, "media_refactor.diff")], []),
     ("eq-authorization-loops", ["C05", "C06", "C04"], [os.path.join(EQ, "authorization_loops.diff")], []),
     ("eq-lookback-arithmetic", ["C02", "C06"], [os.path.join(EQ, "lookback_arith.diff")], []),
     ("eq-keypackage-manual-exact-decode", ["C15", "C06", "C14", "C04"], [os.path.join(EQ, "keypackage_refactor.diff")], []),
